@@ -23,6 +23,7 @@ reg(Prop('C06', [
         'refines, error_is_specific, no_silent_limit (limits hit exactly: 4 rows / 192 rules Examples), no_panic + fuel suffices',
     ],
     explored_only=[
+    'context reuse inside every case (rows after each of three fixed polluter FDEs = rows on a fresh context; `reuse-mismatch` oracle) — the history-independence theorems themselves are C20\'s',
         'CIE/FDE header parsing and encoded pointers (property C05); DW_CFA_set_loc with an augmentation pointer encoding',
         'behaviour of next_row when called again after it returned an error',
         'compiler-built corpus vs readelf -wF (not run in this check)',
